@@ -25,6 +25,9 @@ package main
 //                         not yet stored.  Nothing expected -> the refs are applied and the report
 //                         {"updates": ...} is returned at once.  Otherwise -> {"tableACKs": tables
 //                         already stored}.
+//        a request that names wants while a session exists starts a new session (fetch.Fetch retries a whole
+//        exchange after an HTTP/2 stream error and keeps its cookie jar)
+//   POST /receive-pack/ continued:
 //        packfile (gzip) : ObjectReceiver.Receive; when every expected commit has arrived the refs
 //                         are applied (once) and the report is returned, otherwise an empty JSON object.
 //                         Packfiles that still follow are stored and answered with the same report: the
@@ -52,6 +55,7 @@ import (
 	"fmt"
 	"io"
 	"net/http"
+	"net/http/httptest"
 	"sort"
 	"sync"
 
@@ -73,6 +77,7 @@ type c09Stats struct {
 	ReceiveReqs      int // POST /receive-pack/ requests
 	ReceivePackfiles int // of which carried a packfile
 	Errors           int // requests answered with status >= 400
+	Faults           int // responses lost by the fault layer
 }
 
 type c09UpSession struct {
@@ -100,6 +105,16 @@ type c09Server struct {
 	DenyNonFF       bool   // rule R4
 	DenyDeletes     bool   // rule R2
 
+	// Fault: lose ONE response of the exchange entirely (the request has been processed): the handler panics
+	// with http.ErrAbortHandler before a byte is written - a closed connection on HTTP/1.1, RST_STREAM
+	// INTERNAL_ERROR on HTTP/2.  Phase 1 = the answer to GET /refs/, 2 = the J-th JSON answer (status 200) of
+	// an upload-pack / receive-pack POST, 3 = the answer of the packfile exchange that carries the J-th commit.
+	FaultPhase, FaultJ int
+	faultFired         bool
+	jsonAnswers        int
+	commitsSeen        int
+	lastPackCommits    int // commits in the packfile of the request being served, -1 = not a packfile exchange
+
 	up     map[string]*c09UpSession
 	rp     map[string]*c09RpSession
 	nextID int
@@ -110,12 +125,16 @@ func c09NewServer(db objects.Store, rs ref.Store) *c09Server {
 	return &c09Server{db: db, rs: rs, up: map[string]*c09UpSession{}, rp: map[string]*c09RpSession{}}
 }
 
-func (s *c09Server) ServeHTTP(rw http.ResponseWriter, r *http.Request) {
+func (s *c09Server) ServeHTTP(out http.ResponseWriter, r *http.Request) {
 	s.mu.Lock()
 	defer s.mu.Unlock()
+	rw := httptest.NewRecorder()
+	s.lastPackCommits = -1
+	phase := 0
 	switch {
 	case r.URL.Path == api.PathRefs && r.Method == http.MethodGet:
 		s.getRefs(rw, r)
+		phase = 1
 	case r.URL.Path == api.PathUploadPack && r.Method == http.MethodPost:
 		s.uploadPack(rw, r)
 	case r.URL.Path == api.PathReceivePack && r.Method == http.MethodPost:
@@ -123,9 +142,42 @@ func (s *c09Server) ServeHTTP(rw http.ResponseWriter, r *http.Request) {
 	default:
 		s.fail(rw, http.StatusNotFound, "Not Found")
 	}
+	hit := false
+	if phase == 1 {
+		hit = s.FaultPhase == 1
+	} else if s.lastPackCommits >= 0 {
+		before := s.commitsSeen
+		s.commitsSeen += s.lastPackCommits
+		hit = s.FaultPhase == 3 && before < s.FaultJ && s.FaultJ <= s.commitsSeen
+	} else if rw.Code == http.StatusOK && rw.Header().Get("Content-Type") == api.CTJSON {
+		s.jsonAnswers++
+		hit = s.FaultPhase == 2 && s.jsonAnswers == s.FaultJ
+	}
+	if hit && !s.faultFired {
+		s.faultFired = true
+		s.Stats.Faults++
+		panic(http.ErrAbortHandler)
+	}
+	for k, v := range rw.Header() {
+		out.Header()[k] = v
+	}
+	out.WriteHeader(rw.Code)
+	out.Write(rw.Body.Bytes())
 }
 
-func (s *c09Server) fail(rw http.ResponseWriter, code int, msg string) {
+func c09CountCommits(info *packfile.PackfileInfo) int {
+	n := 0
+	if info != nil {
+		for _, o := range info.Objects {
+			if o[0] == "commit" {
+				n++
+			}
+		}
+	}
+	return n
+}
+
+func (s *c09Server) fail(rw *httptest.ResponseRecorder, code int, msg string) {
 	s.Stats.Errors++
 	rw.Header().Set("Content-Type", api.CTJSON)
 	rw.WriteHeader(code)
@@ -133,7 +185,7 @@ func (s *c09Server) fail(rw http.ResponseWriter, code int, msg string) {
 	rw.Write(b)
 }
 
-func (s *c09Server) json(rw http.ResponseWriter, v interface{}) {
+func (s *c09Server) json(rw *httptest.ResponseRecorder, v interface{}) {
 	b, err := json.Marshal(v)
 	if err != nil {
 		s.fail(rw, http.StatusInternalServerError, err.Error())
@@ -149,7 +201,7 @@ func (s *c09Server) newID(kind string) string {
 	return fmt.Sprintf("%s-%d", kind, s.nextID)
 }
 
-func (s *c09Server) getRefs(rw http.ResponseWriter, r *http.Request) {
+func (s *c09Server) getRefs(rw *httptest.ResponseRecorder, r *http.Request) {
 	s.Stats.RefsReqs++
 	q := r.URL.Query()
 	m, err := ref.ListLocalRefs(s.rs, q["prefix"], q["notprefix"])
@@ -166,7 +218,7 @@ func (s *c09Server) getRefs(rw http.ResponseWriter, r *http.Request) {
 
 // ---------------------------------------------------------------- upload-pack
 
-func (s *c09Server) uploadPack(rw http.ResponseWriter, r *http.Request) {
+func (s *c09Server) uploadPack(rw *httptest.ResponseRecorder, r *http.Request) {
 	s.Stats.UploadReqs++
 	if r.Header.Get("Content-Type") != api.CTJSON {
 		s.fail(rw, http.StatusUnsupportedMediaType, "json expected")
@@ -187,6 +239,12 @@ func (s *c09Server) uploadPack(rw http.ResponseWriter, r *http.Request) {
 	if c, err := r.Cookie(api.CookieUploadPackSession); err == nil {
 		sid = c.Value
 		ses = s.up[sid]
+	}
+	if ses != nil && len(req.Wants) > 0 {
+		// wants come with the first request of a session only: a client that names wants again (fetch.Fetch
+		// retrying after a stream error, with the old cookie still in its jar) starts a new session
+		delete(s.up, sid)
+		ses = nil
 	}
 	if ses == nil {
 		if len(req.Wants) == 0 {
@@ -263,12 +321,13 @@ func (s *c09Server) uploadPack(rw http.ResponseWriter, r *http.Request) {
 	// state send: one packfile per request
 	s.Stats.UploadPackfiles++
 	buf := &c09Buf{}
-	done, _, err := ses.sender.WriteObjects(buf, nil)
+	done, info, err := ses.sender.WriteObjects(buf, nil)
 	if err != nil {
 		drop()
 		s.fail(rw, http.StatusInternalServerError, err.Error())
 		return
 	}
+	s.lastPackCommits = c09CountCommits(info)
 	if done {
 		drop()
 	}
@@ -283,7 +342,7 @@ func (b *c09Buf) Write(p []byte) (int, error) { b.b = append(b.b, p...); return 
 
 // --------------------------------------------------------------- receive-pack
 
-func (s *c09Server) receivePack(rw http.ResponseWriter, r *http.Request) {
+func (s *c09Server) receivePack(rw *httptest.ResponseRecorder, r *http.Request) {
 	s.Stats.ReceiveReqs++
 	var sid string
 	var ses *c09RpSession
@@ -363,6 +422,7 @@ func (s *c09Server) receivePack(rw http.ResponseWriter, r *http.Request) {
 			s.fail(rw, http.StatusBadRequest, err.Error())
 			return
 		}
+		s.lastPackCommits = c09CountCommits(pr.Info)
 		if !done {
 			s.json(rw, &payload.ReceivePackResponse{})
 			return
